@@ -160,6 +160,10 @@ def check(ctx):
   r4(ctx)
   r5(ctx)
   r6(ctx)
+  from . import c12 as _c12o
+  ctx.rule('C12.R1', 'shared with C12: the per-call timeout event keeps its value and its place on the message (the balancer gate polls it: a dead call that looks live is dispatched and charged '
+                     'to a member through a sink stack nobody pops again)')
+  _c12o.observable_truthy(ctx, 'C12.R1')
   load_write_repairs(ctx)
   from . import c12 as _c12, c05 as _c05
   ctx.rule('C12.R2', 'shared with C12: a request deferred until the balancer is open is dispatched only if its deadline has not fired by then (its drained stack would never release the member: '
